@@ -159,6 +159,7 @@ struct Kernel {
     uint64_t pending_signals = 0;
     std::set<int> live_pids;      // pids the environment says exist
     std::set<int> exited_pids;
+    std::set<int> reaped_pids;    // exited and waited for: pidfd_open fails with ESRCH
     int64_t realtime_offset_ns = 1700000000LL * 1000000000LL;
     std::vector<CloseRec> closes;
     std::vector<OpenRec> opens;
@@ -196,6 +197,7 @@ struct Kernel {
     // environment actions
     void env_raise_signal(int signo);
     void env_pid_exit(int pid);
+    void env_pid_reap(int pid);
     void env_touch(const char *path, uint32_t mask, bool with_name);
     void env_clock_step(int64_t delta_ns);
     // time
